@@ -6,12 +6,14 @@ Legs on every run:
                    seeded random programs                                                        -> corr.disagreements
   theorems' hypotheses <-> code : `drv_c20 scope` evaluates the typing side condition of the theorems (`typedS`) on every
                    function body the real front end dumped; a false hypothesis is reported as a disagreement.
-                   `drv_c20 flow` evaluates, per function, the hypotheses of the label-height theorem
-                   C20_function_flow_partial (typedS, flowFn on the tree; userDistinct on the code: the parser's labels
-                   occur once each) and its conclusions (all labels pairwise distinct; Effect.checkBody): a false
-                   hypothesis on real output, and a function inside the theorem's scope whose labels are not distinct or
-                   that the whole-function check rejects (other than by its range test), are disagreements; the scope
-                   coverage and the x87 register need of every function (region of C20-x87-depth-overflow) are counted
+                   `drv_c20 flow` evaluates, per function, the hypotheses of the label-height theorems
+                   C20_function_flow_partial / C20_function_check_partial — all three about the TREE: typedS, flowFn and
+                   treeDistinct (the labels parse.c gave the loops, switches, cases and labelled statements with
+                   new_unique_name() are pairwise distinct) — and their conclusions on the CODE (the parser's labels occur
+                   once each; all labels pairwise distinct; Effect.checkBody accepts or complains about the range only): a
+                   false hypothesis on a real tree, and a function inside the theorems' scope that contradicts a
+                   conclusion, are disagreements; the scope coverage and the x87 register need of every function (region
+                   of C20-x87-depth-overflow) are counted
   property on the emitted code : `drv_c20 effect` runs Effect.checkBody (one stack height per label, nothing below the
                    frame, at most eight x87 registers, rsp back on every return) on the code of every dumped function;
                    because that code *is* the compiler's output (text tie), a failure is a violation on the implementation
@@ -58,6 +60,61 @@ ASSUMPTIONS = [
 
 KNOWN_JUMP = 'C20-jump-out-of-stmt-expr'
 KNOWN_X87 = 'C20-x87-depth-overflow'
+# struct returns in registers (/repo 7826748: the second eightbyte of an all-float 12-byte struct is loaded with movss, not
+# movsd): part of the tie corpus; the program must also compile, link, run and exit 0, and its gcc-built twin too
+STRUCT_RET_PROGRAM = r'''
+struct F3 { float a, b, c; };
+struct F4 { float a, b, c, d; };
+struct FD { float f; double d; };
+struct DF { double d; float f; };
+struct F2 { float a, b; };
+struct F1 { float a; };
+struct D2 { double a, b; };
+struct IF { int i; float f; };
+struct FI3 { float a, b; int c; };
+struct LF { long l; float f; };
+struct FL { float f; long l; };
+struct C12 { char c[9]; char d; };
+struct BIG { float a, b, c, d, e; };
+struct F3 f3(float x) { struct F3 s = {x, x + 1, x + 2}; return s; }
+struct F4 f4(float x) { struct F4 s = {x, x + 1, x + 2, x + 3}; return s; }
+struct FD fd(float x) { struct FD s = {x, x + 0.5}; return s; }
+struct DF df(float x) { struct DF s = {x + 0.5, x}; return s; }
+struct F2 f2(float x) { struct F2 s = {x, x + 1}; return s; }
+struct F1 f1(float x) { struct F1 s = {x}; return s; }
+struct D2 d2(double x) { struct D2 s = {x, x + 1}; return s; }
+struct IF fif(int x) { struct IF s = {x, x + 0.25f}; return s; }
+struct FI3 fi3(int x) { struct FI3 s = {x, x + 1, x + 2}; return s; }
+struct LF lf(long x) { struct LF s = {x, x + 0.5f}; return s; }
+struct FL fl(long x) { struct FL s = {x + 0.5f, x}; return s; }
+struct C12 c12(int x) { struct C12 s = {{x, x + 1, x + 2, x + 3, x + 4, x + 5, x + 6, x + 7, x + 8}, x + 9}; return s; }
+struct BIG big(float x) { struct BIG s = {x, x + 1, x + 2, x + 3, x + 4}; return s; }
+struct F3 pass3(struct F3 s) { return s; }
+int main(void) {
+  int bad = 0;
+  for (int i = 0; i < 12; i++) {
+    struct F3 a = f3(i); struct F4 b = f4(i); struct FD c = fd(i); struct DF d = df(i); struct F2 e = f2(i);
+    struct F1 f = f1(i); struct D2 g = d2(i); struct IF h = fif(i); struct FI3 j = fi3(i); struct LF k = lf(i);
+    struct FL l = fl(i); struct C12 m = c12(i); struct BIG n = big(i); struct F3 o = pass3(f3(i));
+    bad += a.a != i || a.b != i + 1 || a.c != i + 2;
+    bad += b.a != i || b.b != i + 1 || b.c != i + 2 || b.d != i + 3;
+    bad += c.f != i || c.d != i + 0.5;
+    bad += d.d != i + 0.5 || d.f != i;
+    bad += e.a != i || e.b != i + 1;
+    bad += f.a != i;
+    bad += g.a != i || g.b != i + 1;
+    bad += h.i != i || h.f != i + 0.25f;
+    bad += j.a != i || j.b != i + 1 || j.c != i + 2;
+    bad += k.l != i || k.f != i + 0.5f;
+    bad += l.f != i + 0.5f || l.l != i;
+    bad += m.c[0] != i || m.c[8] != i + 8 || m.d != i + 9;
+    bad += n.a != i || n.e != i + 4;
+    bad += o.a != i || o.b != i + 1 || o.c != i + 2;
+    f3(i); (void)f4(i); fd(i), df(i);
+  }
+  return bad;
+}
+'''
 # GNU empty structs/unions as arguments, parameters and return values (the former known finding C20-empty-struct-arg, repaired by
 # /repo b298aee): part of the tie corpus; the program must also compile, link and exit 0
 EMPTY_PROGRAM = r'''
@@ -121,28 +178,34 @@ def run_effect_scope(ctx, corr, dump, label, allow_known=False):
     rc3, o3, e3 = sh([drv, 'flow', dump], timeout=300)
     need = {}
     for line in o3.splitlines():
-        w = line.split(' ', 14)
-        if (len(w) >= 14 and w[0] == 'fn' and w[2] == 'typed' and w[4] == 'flow' and w[6] == 'udistinct' and w[8] == 'distinct'
-                and w[10] == 'x87need' and w[12] == 'check'):
+        w = line.split(' ', 16)
+        if (len(w) >= 16 and w[0] == 'fn' and w[2] == 'typed' and w[4] == 'flow' and w[6] == 'tdistinct' and w[8] == 'udistinct'
+                and w[10] == 'distinct' and w[12] == 'x87need' and w[14] == 'check'):
             corr.count('flow_functions')
-            typed, flow, udist, dist, chk = w[3] == '1', w[5] == '1', w[7] == '1', w[9] == '1', w[13]
-            need[w[1]] = int(w[11])
-            why = w[14] if len(w) > 14 else ''
-            if typed and flow and udist:
+            typed, flow, tdist, udist, dist, chk = w[3] == '1', w[5] == '1', w[7] == '1', w[9] == '1', w[11] == '1', w[15]
+            need[w[1]] = int(w[13])
+            why = w[16] if len(w) > 16 else ''
+            if typed and flow and tdist:
                 corr.count('flow_functions_in_theorem_scope')
-                if chk == 'FAIL' or not dist:
+                if chk == 'FAIL' or not dist or not udist:
                     corr.disagreements.append({'kind': 'label-height-theorem-contradicted', 'file': label, 'function': w[1],
-                                               'note': 'the function is in the scope of C20_function_flow_partial but '
-                                                       + ('its labels are not pairwise distinct' if not dist else
-                                                          'Effect.checkBody rejects its code: ' + why)})
+                                               'note': 'the function is in the scope of C20_function_flow_partial / '
+                                                       'C20_function_check_partial (typedS, flowFn, treeDistinct hold of the tree) but '
+                                                       + ('a parser label is defined twice in its code' if not udist else
+                                                          'its labels are not pairwise distinct' if not dist else
+                                                          'Effect.checkBody rejects its code for a reason other than the range: ' + why)})
             elif not flow:
                 corr.count('flow_functions_out_of_scope')
             if chk == 'range':
                 corr.count('flow_range_only')
-            if typed and flow and not udist:
-                corr.disagreements.append({'kind': 'parser-labels-not-distinct', 'file': label, 'function': w[1],
-                                           'note': 'the emitted code defines a parser label (break/continue/case/goto label) twice: '
-                                                   'hypothesis userDistinct of C20_function_flow_partial is false on real output'})
+            if not tdist:
+                # not a matter of scope: parse.c gives every loop / switch / case / labelled statement its own new_unique_name()
+                corr.disagreements.append({'kind': 'parser-labels-not-distinct-in-tree', 'file': label, 'function': w[1],
+                                           'note': 'two nodes of the dumped tree (loops, switches, cases, labelled statements) carry the '
+                                                   'same label: hypothesis treeDistinct of the C20 label-height theorems is false on a '
+                                                   'tree the real front end produced'})
+        elif line.startswith('fn ') and ' typed ' in line:
+            corr.disagreements.append({'kind': 'flow-line-not-understood', 'file': label, 'line': line[:200]})
     bad = [(fn, why, need.get(fn, 0)) for fn, why in bad]
     return bad
 
@@ -268,6 +331,24 @@ def known_witnesses(ctx, corr):
         if rc1 != 0:
             corr.violations.append({'what': 'empty struct/union arguments: wrong result', 'input': EMPTY_PROGRAM,
                                     'expected': 'exit status 0', 'got': f'exit status {rc1}'})
+    # struct returns in registers (repaired defect /repo 7826748: 12-byte all-float structs): compile, link, run, exit 0
+    p = os.path.join(d, 'struct_ret.c')
+    open(p, 'w').write(STRUCT_RET_PROGRAM)
+    rc, o, e = sh([ctx.cc, f'-I{snap}/include', '-o', os.path.join(d, 'struct_ret'), p], timeout=60)
+    rcg, og, eg = sh(['gcc', '-w', '-O0', '-o', os.path.join(d, 'struct_retg'), p], timeout=60)
+    corr.evaluations += 1
+    if rcg != 0 or sh([os.path.join(d, 'struct_retg')], timeout=30)[0] != 0:
+        raise RuntimeError('the struct-return program is wrong (gcc build fails or does not exit 0): ' + eg[-300:])
+    if rc != 0:
+        corr.violations.append({'what': 'struct return values: the compiler fails', 'input': STRUCT_RET_PROGRAM,
+                                'expected': 'an executable', 'got': f'rc={rc} {e.strip()[-200:]}'})
+    else:
+        rc1, o1, e1 = sh([os.path.join(d, 'struct_ret')], timeout=30)
+        if rc1 != 0:
+            # a wrong VALUE with balanced stacks is C06's matter; a crash (stack corrupted) would be ours: report both here,
+            # the program is tiny
+            corr.violations.append({'what': 'struct return values: wrong result or crash', 'input': STRUCT_RET_PROGRAM,
+                                    'expected': 'exit status 0 (as the gcc build)', 'got': f'exit status {rc1}'})
     # nine long double operands nested to the right: the x87 register stack overflows (NaN; gcc: 9.0)
     p = os.path.join(d, 'deep.c')
     open(p, 'w').write(X87_WITNESS)
@@ -311,7 +392,8 @@ def correspond(ctx, corr):
     fixed_dir = os.path.join(ctx.scratch, 'fixed_tie')
     os.makedirs(fixed_dir, exist_ok=True)
     open(os.path.join(fixed_dir, 'empty_struct.c'), 'w').write(EMPTY_PROGRAM)
-    gen = [(os.path.join(fixed_dir, 'empty_struct.c'), ())] + gen
+    open(os.path.join(fixed_dir, 'struct_ret.c'), 'w').write(STRUCT_RET_PROGRAM)
+    gen = [(os.path.join(fixed_dir, 'empty_struct.c'), ()), (os.path.join(fixed_dir, 'struct_ret.c'), ())] + gen
     t0 = time.time()
     for ent in files + gen:
         res = codegen_tie.asm_text_tie(ctx, corr, [ent])[0]
